@@ -197,7 +197,12 @@ func (c *Coder) DecodeHeader(data []byte, h *MessageHeader) (int, error) {
 		opLen = MessageLength15Base + int(extLen)
 	}
 
-	h.MessageLength = hdrOff + 1 + uint32(tkl) + math.CastTo[uint32](opLen)
+	messageLength := uint64(hdrOff) + 1 + uint64(tkl) + uint64(opLen)
+	if messageLength > 0xffffffff {
+		// the declared frame does not fit MessageLength; do not let it wrap around to a small value
+		return -1, message.ErrInvalidValueLength
+	}
+	h.MessageLength = math.CastTo[uint32](messageLength)
 	if len(data) < 1 {
 		return -1, message.ErrShortRead
 	}
